@@ -269,6 +269,15 @@ func NewWorld(cfg WorldCfg, store Store, visible int) (*World, error) {
 			panic("harness: getChannelDifference while the worker's queue is not empty or the internal queue is full")
 		}
 	}
+	w.Srv.OnAnswer = func(a Answer) {
+		c := Call{Op: "api:" + a.Type, Args: []int{a.Pts}}
+		if a.Seq == SeqPts {
+			c.Args = append(c.Args, a.Qts)
+		} else {
+			c.Args = append(c.Args, int(a.Chan))
+		}
+		w.Trace = append(w.Trace, c)
+	}
 	eng, err := updates.VerifNewState(updates.VerifConfig{
 		SelfID:  SelfID,
 		API:     w.Srv,
